@@ -1,4 +1,4 @@
-"""B21 witness (fixed by /repo c73c4deb): reset --soft HEAD~1 built the target commit's attribution from `git blame A..A` (= the working tree).
+"""B21 witness (fixed by /repo df029dce): reset --soft HEAD~1 built the target commit's attribution from `git blame A..A` (= the working tree).
 Run from /verif: python3 scripts/witness/b21_reset_soft_blame_range.py  (BIN=<git-ai binary> to test another build)."""
 import sys, json, os
 sys.path.insert(0, "/verif")
